@@ -21,6 +21,36 @@ CLAIMED = {
  "C17": ("exhaustive enumeration of single-query pairs/triples/list pairs (quick) plus proptest-generated list pairs/triples (thorough); oracle = independent media-query parser and truth-table evaluator over media type x feature assignments",
          "Quick tier enumerates its finite domain completely (exhaustive: true); thorough adds sampled list pairs/triples. Holds for the bounded query alphabet only.",
          "2/C17"),
+ "C04": ("proptest-generated rule trees (style rules with & in every position, nested properties, @media/@supports/unknown at-rules, @at-root with/without queries); oracle = independent hand-flattening model compared as multiset, per at-rule-path order and global order",
+         "Sampling of rule trees with shrinking; a green run means flattening agreed with the model on every generated tree (bounded depth 4 / width 3).",
+         "2/C04"),
+ "C07": ("proptest-generated literals and operation chains dense near rounding/tolerance boundaries, batched ~500 per compile in both styles; oracle = exact big-integer decimal expansion of IEEE doubles (printing), IEEE model with error bounds (arithmetic, %, division by zero), three-zone tolerance model (comparisons, integer checks), libm (sass:math)",
+         "Sampling; a green run means every generated value was computed, compared and printed as the rules require, within the stated tolerances.",
+         "2/C07"),
+ "C08": ("exhaustive enumeration of all 36x36 ordered unit pairs x 12 operations x 3 magnitudes plus conversion laws and three-factor chains (quick); proptest-generated compound-unit chains (thorough); oracle = independent CSS unit table with exact rational ratios and unit algebra",
+         "The pair space is enumerated completely (exhaustive: true in the quick tier); compound units are sampled.",
+         "2/C08"),
+ "C09": ("fixed universe of ~200 value spellings: all ordered pairs evaluated, equivalence laws decided on the boolean matrix over all triples; duplicate-key literals for every pair; proptest-generated map operation sequences against an association-list model keyed by the observed ==; thorough: proptest-generated universes",
+         "The fixed universe is judged completely (pairs and triples); universes and map sequences beyond it are sampled.",
+         "2/C09"),
+ "C10": ("directed and proptest-generated @extend sheets judged by an independent selector matcher over all DOM forests with <= 3 elements (exhaustive when <= 200 000) plus sampled 4-5 element forests: credited-matching equivalence/soundness, first law, specificity law, placeholder absence, rule-order permutations, @media and missing-target rules",
+         "Sampling of sheets; per sheet the small-DOM space is enumerated. Holds for the bounded selector alphabet and DOM size only.",
+         "2/C10"),
+ "C11": ("proptest-generated selector pairs; each selector function judged against DOM matching (is-superselector soundness/reflexivity, unify within the intersection, extend/replace vs @extend), against nested rules (nest/append) and for crashes, with the same independent matcher as C10",
+         "Sampling of selector pairs; per pair the small-DOM space is enumerated.",
+         "2/C11"),
+ "C12": ("proptest-generated multi-file projects on an in-memory Fs (DAGs and loops of <= 6 modules, @use/@forward with namespaces, prefixes, show/hide, with) against an independent module-graph model; module-function vs global-alias differential over generated arguments",
+         "Sampling of projects with shrinking; compares success/error and the declaration sequence with the model. Projects whose outcome equals a model variant containing only a listed known finding are excluded and counted.",
+         "2/C12"),
+ "C14": ("proptest-generated calls (well- and ill-typed, positional/named) of 27 list/map/string built-ins batched per compile; oracle = reference implementations written from the Sass documentation + six reference-free laws + module/global alias differential",
+         "Sampling of calls; a green run means results (inspect text), errors and aliases agreed with the documented semantics for every generated call outside the listed known region.",
+         "2/C14"),
+ "C15": ("exhaustive enumeration of the 148 names, 4096 short-hex colours in all spellings, alpha bytes and a 17^3 lattice (quick) or all 2^24 colours (thorough), plus proptest-generated constructor/function batches; oracle = CSS Color formulas, independent name table, reference adjust/scale/change",
+         "Finite sub-spaces are enumerated completely; function arguments are sampled. Ties at .5 accept either rounding.",
+         "2/C15"),
+ "C16": ("proptest-generated calc()/min()/max()/clamp() expressions (depth 4, variables, interpolation); oracle = independent calc parser and evaluator comparing source and output under three unit environments, plus must-simplify / must-reject rules",
+         "Sampling of expressions; a green run means every emitted calculation evaluated to the source's value (1e-9 of magnitude) and incompatible direct operands were rejected.",
+         "2/C16"),
 }
 
 NOT_YET = {}
